@@ -194,33 +194,39 @@ func (idx *KVIndex) RemoveDoc(docID string) error {
 			return fmt.Errorf("failed to unmarshal document: %v", err)
 		}
 		for _, entryKey := range doc.Entries {
+			if !tx.HasKey(entryKey) {
+				//the field was removed since the document was added: nothing is indexed for it any more
+				continue
+			}
+			field, ttype, term, _ := EntryKeyParse(entryKey)
+			termKey := TermKey(field, ttype, term)
+			//count before the entry is deleted: a recount must still see it
+			count, err := idx.termGetCount(tx, field, ttype, term)
+			if err != nil {
+				return fmt.Errorf("Termcount Error: %s", err)
+			}
+
 			err = tx.Delete(entryKey)
 			if err != nil {
 				return fmt.Errorf("failed to delete entry %s: %v", entryKey, err)
 			}
 
-			field, ttype, term, _ := EntryKeyParse(entryKey)
-			termKey := TermKey(field, ttype, term)
-			if count, err := idx.termGetCount(tx, field, ttype, term); err == nil {
-				if count > 0 {
-					count = count - 1
-				}
-				//if count == 0, then the term should be removed from the index
-				if count == 0 {
-					err = tx.Delete(termKey)
-					if err != nil {
-						return fmt.Errorf("failed to delete term key %s: %v", termKey, err)
-					}
-				} else {
-					buf := make([]byte, binary.MaxVarintLen64)
-					binary.PutUvarint(buf, count)
-					err = tx.Set(termKey, buf)
-					if err != nil {
-						return fmt.Errorf("failed to set term key %s: %v", termKey, err)
-					}
+			if count > 0 {
+				count = count - 1
+			}
+			//if count == 0, then the term should be removed from the index
+			if count == 0 {
+				err = tx.Delete(termKey)
+				if err != nil {
+					return fmt.Errorf("failed to delete term key %s: %v", termKey, err)
 				}
 			} else {
-				return fmt.Errorf("Termcount Error: %s", err)
+				buf := make([]byte, binary.MaxVarintLen64)
+				binary.PutUvarint(buf, count)
+				err = tx.Set(termKey, buf)
+				if err != nil {
+					return fmt.Errorf("failed to set term key %s: %v", termKey, err)
+				}
 			}
 		}
 
